@@ -279,6 +279,8 @@ def dort_layouts(ctx):
     for _ in range(ctx.n(4, 20)):
         nl = int(rng.integers(1, 6))
         dens = rng.uniform(150, 900, nl)
+        if nl >= 2 and rng.random() < 0.4:
+            dens[0], dens[1] = rng.uniform(850, 915), rng.uniform(50, 90)       # ice crust over fresh snow: n0 >= 2 n1 + 1
         sp = make_snowpack(thickness=rng.uniform(0.1, 2, nl), microstructure_model="homogeneous", density=dens, temperature=260)
         nmax = int(rng.integers(8, 17))
         for mode_passive in (True, False):
@@ -318,6 +320,66 @@ def dort_mode(solver, m):
 
 # ---------------------------------------------------------------------------------------------
 # the property itself on the implementation (search for a failing input)
+
+def check_band_solution(dens, nmax, active=False):
+    """on a real run: the dense matrix made of the blocks handed to todiag (at their offsets) is the matrix the banded storage handed to
+    scipy.linalg.solve_banded stands for, and the returned x solves it - whatever the band layout the solver chooses"""
+    import scipy.linalg
+    from smrt import make_snowpack, make_model, sensor_list
+    from smrt.rtsolver import dort as D
+    blocks, calls = [], []
+    orig_todiag, orig_solve = D.todiag, scipy.linalg.solve_banded
+
+    def todiag(bmat, oi, oj, dmat, *a, **k):
+        blocks.append((int(oi), int(oj), np.array(dmat, dtype=float)))
+        return orig_todiag(bmat, oi, oj, dmat, *a, **k)
+
+    def solve_banded(l_and_u, ab, b, *a, **k):
+        ab0, b0 = np.array(ab, dtype=float), np.array(b, dtype=float)
+        x = orig_solve(l_and_u, ab, b, *a, **k)
+        calls.append((tuple(int(v) for v in l_and_u), ab0, b0, np.array(x, dtype=float), list(blocks)))
+        blocks.clear()
+        return x
+    D.todiag, scipy.linalg.solve_banded = todiag, solve_banded
+    try:
+        sp = make_snowpack([0.05 + 0.1 * i for i in range(len(dens))], "exponential", density=list(dens), corr_length=1e-4, temperature=260)
+        m = make_model("iba", "dort", rtsolver_options=dict(n_max_stream=nmax, m_max=1))
+        sensor = sensor_list.active(13e9, 35.) if active else sensor_list.passive(19e9, 35.)
+        m.run(sensor, sp)
+    except AssertionError:
+        return None
+    finally:
+        D.todiag, scipy.linalg.solve_banded = orig_todiag, orig_solve
+    for (lo, up), ab, b, x, blks in calls:
+        N = ab.shape[1]
+        dense = np.zeros((N, N))
+        for oi, oj, dm in blks:
+            dense[oi:oi + dm.shape[0], oj:oj + dm.shape[1]] = dm
+        band = np.zeros((N, N))
+        for i in range(N):
+            for j in range(max(0, i - lo), min(N, i + up + 1)):
+                band[i, j] = ab[up + i - j, j]
+        scale = float(np.abs(dense).max())
+        mis = float(np.abs(band - dense).max() / scale)
+        if not mis <= 1e-12:
+            return ("band-encodes-dense", mis, "the banded storage equals the dense matrix of the blocks (relative 1e-12)")
+        res = float(np.abs(dense @ x - b).max() / max(1e-300, (np.abs(dense) @ np.abs(x) + np.abs(b)).max()))
+        if not res <= 1e-9:
+            return ("band-solution", res, "D x = b (relative 1e-9)")
+    return None
+
+
+def band_scenes(rng, n):
+    out = []
+    for k in range(n):
+        nl = int(rng.integers(1, 5))
+        dens = [round(float(v), 1) for v in rng.uniform(60, 910, nl)]
+        if k % 2 == 0 and nl >= 2:
+            # a far more refringent top layer (ice crust over fresh snow): many more streams in layer 0 than below
+            dens[0], dens[1] = round(float(rng.uniform(850, 915)), 1), round(float(rng.uniform(50, 90)), 1)
+        out.append((dens, int(rng.choice([8, 12, 16])), bool(k % 4 == 3)))
+    return out
+
 
 def dense_of_diag(d):
     return np.diag(np.asarray(d.diag, dtype=float))
@@ -450,6 +512,12 @@ def oracle(ctx, hints, effort):
             findings.append(Finding("fourier", "generic_ft_even_matrix does not return the coefficients of a band-limited matrix",
                                     {"op": "fourier", "npol": npol, "nsamples": N, "m_max": m_max, "A": A.tolist(), "deg": deg},
                                     float(np.abs(got - req).max()), "max |coefficient error| <= 1e-11"))
+    for dens, nmax, act in [([900.0, 60.0], 16, False)] + band_scenes(rng, 4 if effort == "routine" else 30):
+        evals += 1
+        r = check_band_solution(dens, nmax, act)
+        if r is not None:
+            findings.append(Finding(r[0], f"DORT on densities {dens} with n_max_stream={nmax}: {r[0]} violated", {"op": "band", "density": dens,
+                                    "nmax": nmax, "active": act}, r[1], r[2]))
     # de-duplicate by key, keep the smallest input
     best = {}
     for f in findings:
@@ -459,6 +527,9 @@ def oracle(ctx, hints, effort):
 
 
 def replay(inp, rp=None):
+    if inp.get("op") == "band":
+        r = check_band_solution(inp["density"], inp["nmax"], inp["active"])
+        return Finding(r[0], r[0], inp, r[1], r[2]) if r else None
     if inp.get("op") == "fourier":
         L = lib()
         A = np.array(inp["A"]); npol = inp["npol"]; deg = inp["deg"]
